@@ -17,7 +17,7 @@ def gen_cp_case(rng, nranks=1):
     sync_rate = rng.choice([0.0, 0.1, 0.2, 0.3])
     # a device-wide synchronisation must wait for every thread's work; the simulator schedules threads one
     # after the other, so a second launching thread is only generated when there are no blocking calls
-    case = C.gen_with(rng, C.every_rank_has_device, nranks=nranks, sync_rate=sync_rate,
+    case = C.gen_with(rng, lambda c: C.every_rank_has_device(c) and all(has_linked_launch(ev) for ev in c["ranks"].values()), nranks=nranks, sync_rate=sync_rate,
                       missing_rate=rng.choice([0.0, 0.0, 0.1]), nsteps=rng.choice([0, 1, 2, 3]),
                       zero_rate=rng.choice([0.0, 0.1, 0.2]), two_threads=(sync_rate == 0.0 and rng.random() < 0.4))
     G.add_sync_records(rng, case)
@@ -36,8 +36,24 @@ def gen_cp_case(rng, nranks=1):
     return case
 
 
+LAUNCH_CALLS = {"cudaLaunchKernel", "cudaLaunchKernelExC", "cuLaunchKernel", "cudaMemcpyAsync", "cudaMemsetAsync"}
+
+
+def has_linked_launch(events) -> bool:
+    """At least one launch call whose device activity (a kernel / copy on a stream) is in the trace. Without one the
+    analysis has nothing to order (its queue-length input does not exist) and stops with a TypeError; such traces are
+    outside the quantifier of the critical-path properties."""
+    host = {(e.get("args") or {}).get("correlation") for e in events
+            if e.get("ph") == "X" and e.get("name") in LAUNCH_CALLS and "stream" not in (e.get("args") or {})}
+    dev = {(e.get("args") or {}).get("correlation") for e in events
+           if e.get("ph") == "X" and (e.get("args") or {}).get("stream", -1) >= 0 and e.get("cat") in ("kernel", "gpu_memcpy", "gpu_memset")}
+    host.discard(None)
+    return bool(host & dev)
+
+
 def wf_cp(case) -> bool:
-    return "params" in case and wf_c02(case) and C.every_rank_has_device(case) and case["params"]["rank"] in case["ranks"]
+    return ("params" in case and wf_c02(case) and C.every_rank_has_device(case) and case["params"]["rank"] in case["ranks"]
+            and has_linked_launch(case["ranks"][case["params"]["rank"]]))
 
 
 def run_cp(case):
@@ -58,6 +74,13 @@ def run_cp(case):
         return ta, files, res[0], bool(res[1])
     except Exception as e:  # noqa: BLE001
         import traceback
+        # judged on what was actually loaded (trailing events are trimmed with the profiler steps): a rank without a
+        # single launch call linked to a device activity gives the analysis nothing to order; outside the quantifier
+        rows = htaio.rows_of(ta.t, p["rank"])
+        by_idx = {x[0]: x for x in rows}
+        linked = any(x[9] in LAUNCH_CALLS and x[7] > 0 and x[7] in by_idx and by_idx[x[7]][5] >= 0 for x in rows)
+        if not linked:
+            return ta, files, None, "degenerate: no launch call linked to a device activity after loading"
         return ta, files, None, "raises " + C.exc_name(e) + ": " + str(e)[:100] + " @ " + traceback.format_exc().splitlines()[-3].strip()[:90]
 
 
